@@ -116,7 +116,7 @@ class C05(Prop):
             "non-trivial = container with >= 2 members, or a string needing an escape, or a non-integer number; distinct by tree hash")
     ASSUMPTIONS = ["only the C locale exists in this sandbox: the decimal-point substitution code is exercised with '.' only",
                    "Python's json (strict=True, constants rejected) and the recogniser are the independent strict parsers"]
-    REQUIRED_CLASSES = ["long_string>=1000", "ownership_flags_variant", "container>=2", "escape_needed", "non_integer_number", "non_finite_number", "int_range_integer", "control_char", "non_bmp", "depth>=17"]
+    REQUIRED_CLASSES = ["nameless_member", "long_string>=1000", "ownership_flags_variant", "container>=2", "escape_needed", "non_integer_number", "non_finite_number", "int_range_integer", "control_char", "non_bmp", "depth>=17"]
 
     def budget(self, tier):
         return {"workers": 12, "examples": 3000 if tier == "quick" else 20000}
@@ -179,13 +179,23 @@ class C05(Prop):
             try:
                 # the same value, plain or with ownership flags (constant keys, string references, reference / former-member root)
                 variant = printing.ROOT_VARIANTS[case["rseed"] % len(printing.ROOT_VARIANTS)] if case["rseed"] % 2 else "plain"
+                if case["rseed"] % 16 == 6:
+                    variant = "nameless_member"
                 import random
                 rv = printing.RootVariant(lib, jv, variant, random.Random(case["rseed"]))
                 want = nullify_nonfinite(rv.jv)
-                if variant != "plain":
+                if rv.variant != "plain":
                     stats.cls("ownership_flags_variant")
+                if rv.variant == "nameless_member":
+                    stats.cls("nameless_member")
                 try:
                     texts = printing.print_all(lib, rv.root, stats)
+                except Violation as v:
+                    # a tree with a name-less member need not be printable at all (no verdict); when it is printed, the text is judged
+                    if rv.variant == "nameless_member" and v.key in ("print-null", "prealloc-fail"):
+                        stats.cls("nameless_member_not_printed")
+                        return
+                    raise
                 finally:
                     rv.close()
                 texts_by_mode.append(texts)
